@@ -258,7 +258,7 @@ FLOORS["C13"]["thorough"] = FLOORS["C13"]["quick"]
 
 PLANS["C14"] = {
     "rule": "exhaustive: 7 view kinds (owned, slice over an oversized buffer, reference, cropped, nested-cropped, mutable cropped, nested "
-            "mutable) x all view sizes 0..=N x 0..=N (N=10 quick, 20 thorough) x placements x both axes x every (start, size, parts) with "
+            "mutable) x all view sizes 0..=N x 0..=N (N=12 quick, 28 thorough) x placements x both axes x every (start, size, parts) with "
             "start 0..=extent+1, size 1..=extent+1, parts 1..=size+1, plus values near u32::MAX and split-of-split; parts are read through "
             "ImageView (identity tags) and, for mutable views, written ((index+1)<<20 added) and read back through the parent: every band "
             "pixel incremented exactly once by the right part, nothing else changed; interleave step: sibling mutable parts used alternately "
